@@ -347,13 +347,16 @@ pub enum Use {
     Weight(f64),
     /// `into_weighted(a).into_weighted(b)`: the last weight counts
     WeightTwice(f64, f64),
+    /// only the first cell is looked at: a projected site is added into a one-cell spectrum that is
+    /// thrown away (its iterator is left partly consumed); nothing reaches the accumulated spectrum
+    Partial,
 }
 
 impl Use {
     pub fn effective(self) -> f64 {
         match self {
             Use::Add => 1.0,
-            Use::Drop => 0.0,
+            Use::Drop | Use::Partial => 0.0,
             Use::Weight(w) => w,
             Use::WeightTwice(_, b) => b,
         }
@@ -380,7 +383,7 @@ pub fn run_script(reader: &mut site::Reader, calls: usize, uses: &[Use]) -> Resu
                 ReadStatus::Read(Site::Standard(counts)) => {
                     let u = uses.get(handed).copied().unwrap_or(Use::Add);
                     handed += 1;
-                    if u != Use::Drop {
+                    if u != Use::Drop && u != Use::Partial {
                         scs[&counts] += u.effective();
                     }
                     seen.push(Seen::Counted);
@@ -391,6 +394,10 @@ pub fn run_script(reader: &mut site::Reader, calls: usize, uses: &[Use]) -> Resu
                     match u {
                         Use::Add => projected.add_unchecked(&mut scs),
                         Use::Drop => drop(projected),
+                        Use::Partial => {
+                            let mut first = sfs_core::Scs::from_zeros(sfs_core::array::Shape(vec![1]));
+                            projected.add_unchecked(&mut first);
+                        }
                         Use::Weight(w) => projected.into_weighted(w).add_unchecked(&mut scs),
                         Use::WeightTwice(a, b) => projected.into_weighted(a).into_weighted(b).add_unchecked(&mut scs),
                     }
